@@ -234,3 +234,19 @@ Theorem C03_setext_hypotheses :
   str_of_Z (setext_level 61) = $"1" /\ str_of_Z (setext_level 45) = $"2".
 Proof. exact setext_instance. Qed.
 Print Assumptions C03_setext_hypotheses.
+
+(* THEMATIC BREAKS (Proofs/ThematicLaw.v): a line of three or more `-`, `_` or `*` - any length - is a thematic break for every
+   modelled configuration: ThematicBreak.pattern, with its capture group, the back-reference to it inside a greedy repetition
+   and the lazy repetitions of white space, is evaluated exactly on the line; no block kind tried before ThematicBreak starts
+   on it; the HTML is <hr />. *)
+From Mistletoe Require Import Proofs.ThematicLaw.
+Theorem C03_thematic_break : forall cfg o c n, (c = 45 \/ c = 95 \/ c = 42)%Z -> thematic_config cfg = true ->
+  parse_lines cfg [tline c n] = (Document [ThematicBreak (repeat c (S (S (S n))))], [], [1%Z]) /\
+  render_html o (fst (fst (parse_lines cfg [tline c n]))) = $"<hr />" ++ [10%Z].
+Proof. intros. split; [apply thematic_break_parses|apply thematic_break_renders]; assumption. Qed.
+Print Assumptions C03_thematic_break.
+
+Theorem C03_thematic_configs :
+  forallb thematic_config [cfg_html; cfg_html_nohtml; cfg_markdown; cfg_latex; cfg_mathjax; cfg_default] = true /\ tline 42 1 = $"****" ++ [10%Z].
+Proof. split; [exact thematic_configs|reflexivity]. Qed.
+Print Assumptions C03_thematic_configs.
